@@ -1142,7 +1142,7 @@ func (g *FunctionGenerator[V]) GenerateFunc(ast parser2.AST, gc GeneratorContext
 			}, pure, nil
 		}
 	case *parser2.FunctionCall:
-		if id, ok := a.Func.(*parser2.Ident); ok {
+		if id, ok := a.Func.(*parser2.Ident); ok && id.IsFunc {
 			if fun, ok := g.staticFunctions[id.Name]; ok {
 				if fun.argsNumberNotMatching(len(a.Args)) {
 					return nil, false, id.Error(fun.argsNumberNotMatchingError(id.Name, len(a.Args)))
